@@ -241,6 +241,7 @@ def run(tier, seed):
     chk = fw.Check("C18", tier, seed)
     br, ob = fw.standard_prelude(chk, with_coqchk=(tier == "thorough"))
     rng = chk.rng
+    impl.KEEP_ENABLED = False          # this check edits the objects it is handed (on purpose) and checks value semantics itself
     quick = tier == "quick"
     pool = build_pool(rng, quick)
     spy = fw.GlobalStateSpy()
@@ -310,6 +311,42 @@ def run(tier, seed):
             ml = model_of(spec)
             if ml is not None and not fw.exn_refines(ml, first[key]):
                 chk.diverge("Model (pristine process)", f"{key}: model {ml[:80]} impl {first[key][:80]}", {"call": key})
+    # first use of each format in a process, with a second thread making the same call between every two lines of the first (lazy initialisation races):
+    # executed in a forked child of this still pristine process; both threads must see the pristine single-threaded outcome
+    for spec in pool:
+        key, kind, pol, obj = spec
+        if kind != "reg" or not key.endswith(("/ok", "/untrusted", "/fault")) or key not in first:
+            continue
+        rfd, wfd = os.pipe()
+        pid = os.fork()
+        if pid == 0:
+            try:
+                os.close(rfd)
+                with impl.substituted(pol.substitute, pol.now):
+                    oa, obs, n = fw.interleaved(lambda: run_spec(spec)[0], lambda: run_spec(spec)[0])
+                os.write(wfd, json.dumps([oa, sorted(set(obs)), n]).encode())
+            finally:
+                os._exit(0)
+        os.close(wfd)
+        buf = b""
+        while True:
+            b = os.read(rfd, 65536)
+            if not b:
+                break
+            buf += b
+        os.close(rfd)
+        os.waitpid(pid, 0)
+        chk.evals += 1
+        try:
+            oa, obs, n = json.loads(buf.decode())
+        except Exception:
+            chk.diverge("interleaved first use (forked child)", f"{key}: the child did not report ({buf[:100]!r})", {"call": key})
+            continue
+        bad = [o for o in [oa] + obs if o != first[key]]
+        if bad:
+            chk.violation(f"first use of {key} in a process, with a second thread making the same call in between: outcome {bad[0][:60]} instead of {first[key][:60]}", f"interleaved-first-use {key.split('/')[1]}/{key.split('/')[-1]}",
+                          {"call": key, "schedule": "thread B runs the complete call at a line boundary of thread A's call (all boundaries tried in one run)", "switch_points": n, "outcomes": [oa] + obs, "single_threaded": first[key]})
+        chk.seen(("interleaved-first-use", key))
     nh, L = (25, 30) if quick else (300, 100)
     for h in range(nh):
         hist = []
@@ -349,6 +386,26 @@ def run(tier, seed):
             t.start()
         for t in ths:
             t.join()
+        # ... and the schedules a stress run only hits by luck: call A on this thread, and between every two lines A executes inside the library a
+        # complete call B on another thread (fw.interleaved) - every pair (A, B) must give A's and B's single-threaded outcomes
+        npairs = 0
+        for i, A_ in enumerate(calls):
+            partners = [calls[(i * 7 + 3) % len(calls)], calls[(i * 11 + 5) % len(calls)]] if not quick else [calls[(i * 7 + 3) % len(calls)]]
+            if quick and i % 2 and A_[1] == "reg":
+                continue
+            for B_ in partners:
+                oa, obs, n = fw.interleaved(lambda: run_spec(A_)[0], lambda: run_spec(B_)[0])
+                npairs += 1
+                wrongb = [o for o in obs if o != first[B_[0]]]
+                if oa != first[A_[0]] or wrongb:
+                    chk.violation(f"call {A_[0]} interleaved at line boundaries with call {B_[0]} on another thread: " +
+                                  (f"A gave {oa[:50]} instead of {first[A_[0]][:50]}" if oa != first[A_[0]] else f"B gave {wrongb[0][:50]} instead of {first[B_[0]][:50]}"),
+                                  f"interleaved {A_[0].split('/')[0]}/{A_[0].split('/')[-1]} with {B_[0].split('/')[0]}/{B_[0].split('/')[-1]}",
+                                  {"A": A_[0], "B": B_[0], "schedule": "B runs to completion between two consecutive lines of A inside the library; all such points in one run", "switch_points": n,
+                                   "A_outcome": oa, "A_single_threaded": first[A_[0]], "B_outcomes": sorted(set(obs)), "B_single_threaded": first[B_[0]]})
+                chk.seen(("interleaved", A_[0], B_[0]))
+        chk.evals += npairs
+        chk.count("interleaved-pairs", npairs)
     chk.evals += 16 * min(40 if quick else len(calls), len(calls))
     for (tid, key, out, ref, viol) in errors[:5]:
         chk.violation(f"thread {tid}: call {key} gave another outcome than single-threaded", f"thread-interference {key.split('/')[0]}", {"call": key, "threaded": out, "single": ref, "arg_violations": viol})
